@@ -175,6 +175,22 @@ def canon_vs(vs):
     return canon(to_py(vs))
 
 
+def coq_int(n):
+    """Coq Z term for n; big decimal literals are catastrophically slow to parse (seconds each), so numbers beyond
+    64 bits are written as 2^k +/- d when possible and in hexadecimal otherwise"""
+    if abs(n) < 2 ** 64:
+        return "(%d)" % n
+    a = abs(n)
+    k = a.bit_length() - 1
+    if a - 2 ** k < 2 ** 64:
+        t = "(2^%d + %d)" % (k, a - 2 ** k)
+    elif 2 ** (k + 1) - a < 2 ** 64:
+        t = "(2^%d - %d)" % (k + 1, 2 ** (k + 1) - a)
+    else:
+        t = "(%s)" % hex(a)
+    return t if n >= 0 else "(- %s)" % t
+
+
 def coq_zlist(xs):
     return "[" + ";".join(str(x) for x in xs) + "]"
 
@@ -183,7 +199,7 @@ def to_obj(vs):
     """value spec -> Coq `obj` term"""
     k = vs[0]
     if k == "i":
-        return "(OInt (%d))" % vs[1]
+        return "(OInt %s)" % coq_int(vs[1])
     if k == "f":
         return "(OFloat %d)" % vs[1]
     if k == "b":
@@ -258,7 +274,7 @@ def slice_vs(vs):
 def to_wobj(ws):
     k = ws[0]
     if k == "wi":
-        return "(WInt %d (%d) (%d))" % (TB[ws[1]][0], ws[2], ws[3])
+        return "(WInt %d %s %s)" % (TB[ws[1]][0], coq_int(ws[2]), coq_int(ws[3]))
     if k == "wf":
         return "(WFloat %d)" % ws[1]
     if k == "ws":
@@ -563,11 +579,14 @@ def gen_int(rng, mb):
     if mb == -1:
         pool = [0, 1, -1, 2 ** 31 - 1, -2 ** 31, 2 ** 31 - 2, -2 ** 31 + 1, rng.randint(-2 ** 31, 2 ** 31 - 1)]
     elif mb is None:
-        pool = [0, -1, 2 ** 31, -2 ** 31 - 1, 2 ** 8000, -(2 ** 8200), rng.randint(-2 ** 70, 2 ** 70)]
+        pool = [0, -1, 2 ** 31, -2 ** 31 - 1, 2 ** 63, rng.randint(-2 ** 70, 2 ** 70)]
+        if rng.random() < 0.1:
+            pool = [2 ** 8000, -(2 ** 8200)]
     else:
         top = 2 ** (8 * mb) - 1
-        pool = [0, 1, -1, top, -top, 2 ** 31 - 1, 2 ** 31, -2 ** 31, -2 ** 31 - 1, top // 256 + 1, top // 256,
-                rng.randint(-top, top)]
+        pool = [0, 1, -1, 2 ** 31 - 1, 2 ** 31, -2 ** 31, -2 ** 31 - 1, rng.randint(-2 ** 31, 2 ** 31)]
+        if mb <= 8 or rng.random() < 0.1:
+            pool = [top, -top, top // 256 + 1, top // 256, top + 1, -top - 1] + ([rng.randint(-top, top)] if mb <= 8 else [])
     return rng.choice(pool)
 
 
@@ -585,7 +604,7 @@ def gen_any(rng, depth, hashable=False):
     ks = ["i", "i", "b", "t", "B", "N", "f"] + ([] if depth <= 0 else (["T"] if hashable else ["l", "T", "s", "d", "fs"]))
     k = rng.choice(ks)
     if k == "i":
-        return ["i", rng.choice([0, 5, -7, 2 ** 31, -2 ** 31 - 1, 2 ** 64, 2 ** 7999])]
+        return ["i", rng.choice([0, 5, -7, 2 ** 31, -2 ** 31 - 1, 2 ** 64] + ([2 ** 8000 - 1] if rng.random() < 0.1 else []))]
     if k == "b":
         return ["b", [rng.randint(0, 255) for _ in range(rng.randint(0, 4))]]
     if k == "t":
